@@ -9,6 +9,9 @@ fn main() {
     match mode {
         "layout" => pure::layout(),
         "decode" => pure::decode(),
+        "load" => pure::load(),
+        "hex" => pure::hexdigest(),
+        "sha1" => pure::sha1(),
         _ => {
             eprintln!("usage: tbv-harness <layout|...>");
             std::process::exit(2);
